@@ -963,6 +963,13 @@ class Executor:
             cval = closure
             cref = None
         if isinstance(cval, FnItem):
+            # tuple-struct / enum-variant constructors used as functions (`.map(OrderedFloat)`, `.map(Some)`)
+            segs = _strip_generics(cval.path).split("::")
+            last = segs[-1]
+            if len(segs) >= 2 and (segs[-2] in self.BUILTIN_ENUMS or self.src.enum_variants(segs[-2], last) is not None):
+                return Agg("enum", list(args), name=segs[-2], variant=last)
+            if last[:1].isupper() and (last == "OrderedFloat" or self.src.struct_fields(last) is not None) and not self.lookup_fn(_strip_generics(cval.path)):
+                return Agg("struct", list(args), name=last)
             raise Unsupported("function item used as closure: " + cval.path)
         fn = self.closure_fn(cval)
         first_ty = fn.args[0][1]
